@@ -17,6 +17,8 @@ Requests (`<bits>`: string of `0`/`1`, index 0 first, `-` for the empty string; 
 * `(real se|diff (<ff 0|1> <bdir> <e> (<o> <oe> <pad>)*)*)` → `model=<net> spec=<net>`,
   `<net> ::= ok#<cell>&<cell>…#<ivals>&<ivals>…` or `err:<Kind>`; cells sorted;
   `<cell> ::= nets|dir|o,oe/o,oe…`; `<ivals> ::= v/v…`
+  model: `Buffer.single` / `Buffer.diff`, for `ff = 1` `FFBuffer.realRun` from power-on (an event without an edge,
+  then an edge of both domains, inputs held); spec: `Spec.padClaims`, `Spec.padBuffer`, `Spec.ffRunPads`
 -/
 
 open Amaranth Amaranth.IoBuf
@@ -199,13 +201,13 @@ def handleFF (bdir : Dir) (inv : List Bool) (es : List FFEvent) : String :=
 
 /-! ### real ports -/
 
-structure RealBuf where
+structure RealBufReq where
   ff : Bool
   bdir : Dir
   e : LExpr
   vecs : List (Nat × Bool × Nat)
 
-def parseRealBuf : Sexp → Option RealBuf
+def parseRealBuf : Sexp → Option RealBufReq
   | .list (ff :: bd :: e :: vs) => do
       some ⟨(← Sexp.toNat? ff) != 0, ← parseDir bd, ← parseLExpr e, ← vs.mapM parseVec3⟩
   | _ => none
@@ -218,15 +220,15 @@ def sortStrings (xs : List String) : List String := (xs.toArray.qsort (· < ·))
 def mkDiffReal (d : Dir) (id w : Nat) (inv : InvArg) : R (DiffPort Wire) :=
   DiffPort.new (wiresOf (2 * id) w) (wiresOf (2 * id + 1) w) inv d
 
-/-- cells and `i` of one buffer for all its vectors. A registered buffer is observed twice per
-vector: at power-on (registers 0) and after one edge with the inputs held. -/
-def realOne (cellsOf : Nat → Bool → Nat → List (IOBCell Wire) × Option Nat) (ff : Bool)
+/-- cells and `i` of one buffer for all its vectors. A registered buffer (`FFBuffer.realRun`, from power-on) is
+observed twice per vector: after an event without any clock edge (registers still 0) and after one edge of both
+domains with the inputs held. -/
+def realOne (bdir : Dir) (cellsOf : Amaranth.IoBuf.RealBuf Wire) (ff : Bool)
     (vecs : List (Nat × Bool × Nat)) : List (List Wire × Dir × List String) × List String :=
   let obs : List (List (IOBCell Wire) × Option Nat) :=
     vecs.flatMap fun (o, oe, pad) =>
       if ff then
-        let before := cellsOf 0 false pad
-        [(before.1, before.2.map fun _ => 0), cellsOf o oe pad]
+        FFBuffer.realRun cellsOf bdir FFState.init [⟨⟨o, oe, pad⟩, false, false⟩, ⟨⟨o, oe, pad⟩, true, true⟩]
       else [cellsOf o oe pad]
   let shape := (cellsOf 0 false 0).1
   let cells := (List.range shape.length).map fun k =>
@@ -236,63 +238,63 @@ def realOne (cellsOf : Nat → Bool → Nat → List (IOBCell Wire) × Option Na
       s!"{showOptNat ck.o},{showOptNat (ck.oe.map fun b => if b then 1 else 0)}")
   (cells, obs.map fun ob => showOptNat ob.2)
 
-/-- the same with the Spec's sentences: pads carry `o XOR inv` (the complementary half its
-complement), `i` shows `pad XOR inv`; which cells exist is a fact about the generic buffers
-(one cell per half that is driven or read) that the Spec takes from the model's `shape` -/
-def specCells (isDiff : Bool) (bdir : Dir) (inv : List Bool) (o : Nat) (oe : Bool) (pad : Nat) :
-    List (Option Nat × Option Bool) × Option Nat :=
-  let w := inv.length
-  let po := Spec.ofBits (Spec.padO inv (Spec.toBits w o))
-  let pn := Spec.ofBits (Spec.padON inv (Spec.toBits w o))
-  let pi := Spec.ofBits (Spec.padI inv (Spec.toBits w pad))
-  match bdir with
-  | .i => ([(none, none)], some pi)
-  | .o => ((some po, some oe) :: (if isDiff then [(some pn, some oe)] else []), none)
-  | .io => ((some po, some oe) :: (if isDiff then [(some pn, some oe)] else []), some pi)
+/-- a Spec observation as the per-cell `(o, oe)` list: the (true-half) pads, then the complementary half if it is
+driven -/
+def padCells (ob : Spec.PadObs) : List (Option Nat × Option Bool) :=
+  (ob.padO.map Spec.ofBits, ob.oe) :: (match ob.padN with
+    | some n => [(some (Spec.ofBits n), ob.oe)]
+    | none => [])
 
 structure RealItem where
-  b : RealBuf
+  b : RealBufReq
   shape : List (List Wire × Dir)
-  cellsOf : Nat → Bool → Nat → List (IOBCell Wire) × Option Nat
+  cellsOf : Amaranth.IoBuf.RealBuf Wire
   inv : List Bool
+  /-- the pads of the port: (single-ended pads or true half, complementary half) -/
+  pads : List Wire × List Wire
 
 def cellStr (c : List Wire × Dir × List String) : String :=
   s!"{showNets c.1}|{showDir c.2.1}|{"/".intercalate c.2.2}"
 
-def evalReal (kind : String) (b : RealBuf) : R RealItem :=
+def evalReal (kind : String) (b : RealBufReq) : R RealItem :=
   match kind with
   | "se" => do
       let p ← b.e.evalM SEPort.ops mkSE
       let _ ← bufferNew b.bdir p.dir
       let f := fun o oe pad => Buffer.single b.bdir p o oe pad
-      pure ⟨b, (f 0 false 0).1.map (fun c => (c.port, c.dir)), f, p.inv⟩
+      pure ⟨b, (f 0 false 0).1.map (fun c => (c.port, c.dir)), f, p.inv, (p.io, [])⟩
   | _ => do
       let p ← b.e.evalM DiffPort.ops mkDiffReal
       let _ ← bufferNew b.bdir p.dir
       let f := fun o oe pad => Buffer.diff b.bdir p o oe pad
-      pure ⟨b, (f 0 false 0).1.map (fun c => (c.port, c.dir)), f, p.inv⟩
+      pure ⟨b, (f 0 false 0).1.map (fun c => (c.port, c.dir)), f, p.inv, (p.p, p.n)⟩
 
+/-- the same with the Spec's sentences: which pads carry a cell (`Spec.padClaims`), what is on them
+(`Spec.padBuffer`), and for a registered buffer `Spec.ffRunPads` from power-on -/
 def specOne (isDiff : Bool) (it : RealItem) : List String × List String :=
   let b := it.b
-  let obs : List (List (Option Nat × Option Bool) × Option Nat) :=
+  let w := it.inv.length
+  let z := Spec.toBits w 0
+  let obs : List Spec.PadObs :=
     b.vecs.flatMap fun (o, oe, pad) =>
       if b.ff then
-        let before := specCells isDiff b.bdir it.inv 0 false pad
-        [(before.1, before.2.map fun _ => 0), specCells isDiff b.bdir it.inv o oe pad]
-      else [specCells isDiff b.bdir it.inv o oe pad]
-  let cells := (List.range it.shape.length).map fun k =>
-    let c := it.shape.getD k ([], .i)
+        Spec.ffRunPads isDiff b.bdir it.inv z false z
+          [⟨Spec.toBits w o, oe, Spec.toBits w pad, false, false⟩, ⟨Spec.toBits w o, oe, Spec.toBits w pad, true, true⟩]
+      else [Spec.padBuffer isDiff b.bdir it.inv (Spec.toBits w o) oe (Spec.toBits w pad)]
+  let claims := Spec.padClaims b.bdir it.pads.1 (if isDiff then some it.pads.2 else none)
+  let cells := (List.range claims.length).map fun k =>
+    let c := claims.getD k ([], .i)
     cellStr (c.1, c.2, obs.map fun ob =>
-      let ck := ob.1.getD k (none, none)
+      let ck := (padCells ob).getD k (none, none)
       s!"{showOptNat ck.1},{showOptNat (ck.2.map fun b => if b then 1 else 0)}")
-  (cells, obs.map fun ob => showOptNat ob.2)
+  (cells, obs.map fun ob => showOptNat (ob.i.map Spec.ofBits))
 
 def showNet (per : List (List String × List String)) : String :=
   let cells := sortStrings (per.flatMap (·.1))
   let ivals := per.map fun p => if p.2.isEmpty then "-" else "/".intercalate p.2
   s!"ok#{"&".intercalate cells}#{"&".intercalate ivals}"
 
-def handleReal (kind : String) (bufs : List RealBuf) : Option String :=
+def handleReal (kind : String) (bufs : List RealBufReq) : Option String :=
   match bufs.mapM (evalReal kind) with
   | .error e => some s!"model={showErr e} spec={showErr e}"
   | .ok items =>
@@ -302,10 +304,12 @@ def handleReal (kind : String) (bufs : List RealBuf) : Option String :=
       | .error e => showErr e
       | .ok _ =>
         showNet (items.map fun (it : RealItem) =>
-          let r := realOne it.cellsOf it.b.ff it.b.vecs
+          let r := realOne it.b.bdir it.cellsOf it.b.ff it.b.vecs
           (r.1.map cellStr, r.2))
+    let sClaims : List (List Wire) := items.flatMap fun (it : RealItem) =>
+      (Spec.padClaims it.b.bdir it.pads.1 (if kind != "se" then some it.pads.2 else none)).map (·.1)
     let sOut :=
-      if !Spec.accepts claims then showErr .driverConflict
+      if !Spec.accepts sClaims then showErr .driverConflict
       else showNet (items.map (specOne (kind != "se")))
     some s!"model={mOut} spec={sOut}"
 
